@@ -89,6 +89,11 @@ class AccessMixin:
                 return self.call_function(v.fget, [obj], {}, node, frame)
             return v
         if isinstance(obj, EnumVal):
+            if obj.cls is not None and not name.startswith("__"):
+                # type.__getattribute__: a data descriptor (property) of the metaclass wins over the class's own namespace
+                mv, mowner = obj.cls.lookup(name)
+                if isinstance(mv, PropertyVal) and mv.fget is not None:
+                    return self.call_function(mv.fget, [obj], {}, node, frame)
             if name in obj.members:
                 return obj.members[name]
             if obj.cls is not None:
@@ -126,6 +131,12 @@ class AccessMixin:
                         e.bases = a[2]
                         e.namespace_arg = a[3]
                         I.event("type-new", enum=e, namespace=a[3], where=f.where(n), node=n)
+                        # type.__new__ calls __set_name__(owner, name) on every namespace value that defines it
+                        for key_, val_ in list(a[3].items()):
+                            if isinstance(val_, Instance) and isinstance(val_.cls, ClassVal):
+                                sn, snowner = val_.cls.lookup("__set_name__")
+                                if isinstance(sn, FuncVal):
+                                    I.call_function(sn, [val_, e, key_], {}, n, f)
                         return e
                     return Unknown("type.__new__ with unexpected arguments")
                 return Builtin("type.__new__", type_new)
@@ -214,6 +225,14 @@ class AccessMixin:
             obj.env[name] = v
             return
         if isinstance(obj, EnumVal):
+            if obj.cls is not None and not name.startswith("__"):
+                mv, mowner = obj.cls.lookup(name)
+                if isinstance(mv, PropertyVal):        # type.__setattr__: the metaclass's data descriptor takes the store
+                    if mv.fset is None:
+                        raise PyRaise(Instance(self.bclasses["AttributeError"], ("property '%s' of '%s' object has no setter" % (name, obj.cls.name),)),
+                                      node, frame.where(node))
+                    self.call_function(mv.fset, [obj, v], {}, node, frame)
+                    return
             if id(obj) in self.static_ids and (not self.loading or self.exploring):
                 self.journal.append(("dict", obj.members, None, dict(obj.members)))
                 self.event("static-mutation", obj=obj, origin=self.static_ids[id(obj)], where=frame.where(node))
